@@ -268,6 +268,9 @@ def run(ck, ctx):
     RL.run_false_stops(ck, ctx, "fail-stop")
     reload(ck, ctx, info)
     ids_across_reload(ck, ctx, info)
+    # both loads open the same log: its location (builddir) is decided by the top-level manifest alone
+    from . import C18 as R18
+    R18.flags(ck, ctx)
     R01.ready_want(ck, ctx)
     from . import C19 as R19
     R19.tasks_run(ck, ctx)
